@@ -430,7 +430,10 @@ Do(o) ==
             /\ IF o.a \notin 1..Len(procs) \/ ~procs[o.a].alive \/ o.a = P
                THEN /\ log' = Refused("RuntimeError") /\ UNCHANGED <<evs, agenda, seq>>
                ELSE LET ie == Len(evs) + 1 IN
-                    /\ evs' = Append(evs, NewEv("intr", "triggered", FALSE, Val("intr", P, <<NOps>>), TRUE, <<Cb("intr", 0)>>, o.a, <<>>, FALSE))
+                    \* cause: (caller, op index), or with b = 1 the bare op index (a number, possibly 0)
+                    /\ evs' = Append(evs, NewEv("intr", "triggered", FALSE,
+                                                IF o.b = 1 THEN Val("intrn", NOps, <<>>) ELSE Val("intr", P, <<NOps>>),
+                                                TRUE, <<Cb("intr", 0)>>, o.a, <<>>, FALSE))
                     /\ agenda' = agenda \cup {Entry(ie, URG, 0, seq)} /\ seq' = seq + 1 /\ log' = log
             /\ procs' = Bump(procs) /\ UNCHANGED run
        [] o.k = "cond" ->                          \* a = 1: all_of, 0: any_of; s = operands; b = 1: with probe
